@@ -252,6 +252,35 @@ def respond (stores : Nat → Store) (cfg : MatcherCfg) (host : Bytes) (qt : Nat
     | .ok hs => .txt hs
   else .pass
 
+/-! ### From the question to the host, and to the lists switched on for the client -/
+
+/-- `unicode.ToLower` on an ASCII byte (question names are ASCII in presentation format: every
+other byte of a label is written as a `\DDD` escape by the DNS library). -/
+def lowerByte (c : UInt8) : UInt8 := if 65 ≤ c ∧ c ≤ 90 then c + 32 else c
+
+/-- `strings.TrimSuffix(fqdn, ".")`: one final dot. -/
+def dropFinalDot (q : Bytes) : Bytes := if q.getLast? = some dot then q.dropLast else q
+
+/-- `agdnet.NormalizeDomain`, which makes `ri.Host` of the question name (`newRequestInfo`). -/
+def normalizeDomain (q : Bytes) : Bytes := (dropFinalDot q).map lowerByte
+
+/-- The hash-prefix lists a question meets, in the order in which the composite filter asks them:
+`filterstorage.setSafeBrowsing` / `setParental` put the dangerous-domains (0), adult (1) and
+newly-registered (2) filters into the composite configuration, `composite.New` orders them. -/
+def enabledLists (sbOn danger newReg parOn adult : Bool) : List Nat :=
+  (if sbOn && danger then [0] else []) ++ (if parOn && adult then [1] else []) ++
+    (if sbOn && newReg then [2] else [])
+
+/-- The verdict on a question as the client sends it: the first enabled list whose filter claims the
+normalised host, with the rule. -/
+def questionVerdict (H : Bytes → Bytes) (ps : Bytes → Bytes × Bool) (stores : Nat → Store)
+    (enabled : List Nat) (qname : Bytes) (qt : Nat) : Option (Nat × Bytes) :=
+  enabled.findSome? (fun i => (filterRule H ps (stores i) (normalizeDomain qname) qt).map (fun r => (i, r)))
+
+/-- The pre-service answer to a question as the client sends it. -/
+def questionRespond (stores : Nat → Store) (cfg : MatcherCfg) (qname : Bytes) (qt : Nat) : Resp :=
+  respond stores cfg (normalizeDomain qname) qt
+
 /-! ### Histories of resets -/
 
 /-- `Storage.Reset` applied to storage number `i`. -/
